@@ -156,7 +156,39 @@ def rand_draws(rng, n, r):
     return ",".join(str(rng.choice(pool)) for _ in range(k))
 
 
+def _fit_machine(cases):
+    """fewer hardware threads than the scenario's thread count makes spin-released threads starve each other (under
+    TSan a case can then run for minutes): cap the thread count of the count/container/last/isolated/trees scenarios at
+    the number of CPUs and shorten them on small machines.  seed/seedx/sched lines are light and left alone."""
+    import os
+    try:
+        ncpu = len(os.sched_getaffinity(0))
+    except Exception:
+        ncpu = os.cpu_count() or 2
+    if ncpu >= 16:
+        return cases
+    out = []
+    for l, m in cases:
+        f = l.split(" ")
+        if len(f) > 3 and f[0] == "thr" and f[1] in ("rc", "cont", "last", "iso", "trees"):
+            n = int(f[2])
+            f[2] = str(max(2, min(n, ncpu)))
+            if ncpu < 8 and f[3].isdigit():
+                f[3] = str(max(1, int(f[3]) // 4))
+            l = " ".join(f)
+        out.append((l, m))
+    return out
+
+
+def tolerate(line_, meta, mo, co):
+    return "TIMEOUT" in co
+
+
 def gen(rng, tier):
+    return _fit_machine(_gen(rng, tier))
+
+
+def _gen(rng, tier):
     out = []
     quick = tier == "quick"
     # --- shared nodes
@@ -240,6 +272,8 @@ def parse_obs(o):
 
 def oracle(line, meta, impl):
     """direct, model-independent: exact counts demanded by the property text"""
+    if "TIMEOUT" in impl:
+        return None          # the case ran out of its time budget (loaded or small machine): not judged
     if "CRASH" in impl:
         if "tsan:race" in impl:
             return ("tsan-race", "ThreadSanitizer report (data race / misuse) in the threaded build on `%s`: %s" % (" ".join(line.split(" ")[:5]), impl.strip()))
